@@ -28,7 +28,7 @@ Lemma ang_ge_trans : forall v w u,
 Proof.
   intros [xv yv] [xw yw] [xu yu] Hw. unfold ang_lt, half, vzero in *. simpl.
   assert (Hnz : xw <> 0 \/ yw <> 0).
-  { destruct (Z.eq_dec xw 0), (Z.eq_dec yw 0); subst; auto. exfalso; apply Hw; reflexivity. }
+  { destruct (Z.eq_dec xw 0), (Z.eq_dec yw 0); subst; auto. }
   clear Hw.
   (* (X,Y) = (y, -x) *)
   intros H1 H2.
